@@ -44,7 +44,7 @@ def find_case(ctx, cid):
 
 def judge_file(ctx, module, cases_path, tag, budget="10s", workers=None):
     trace = fam_codec.run_cases(ctx.pvh, cases_path, ctx.work, tag, budget=budget, workers=workers)
-    verdicts, st = vlib.judge(ctx.work, module, trace, ctx.env, ctx.open, tag=tag)
+    verdicts, st = vlib.judge(ctx.work, module, trace, ctx.env, ctx.open, tag=tag, **getattr(ctx, "judge_kw", {}))
     return trace, verdicts, st
 
 
@@ -245,6 +245,80 @@ def decode_family(ctx, kinds, n_quick, n_thorough, with_codec_sessions=False):
         "whether a re-used slice that ends up empty is nil or empty is left open (compared after normalising empties)"])
 
 
+CAT_RE = re.compile(r'^<<"CATALOGUE", (".*")>>$')
+
+
+def system_family(ctx):
+    """C06 / C11: histories generated from PlencSystem (exhaustive short ones + simulated long ones) replayed and validated by TraceSystem."""
+    ctx.build()
+    base = "  Env <- MCEnv\n  Cat <- MCCat\n  GenIdx <- %s\n" % ("QuickIdx" if ctx.quick else "AllIdx")
+    # 1. design check: deeper, fingerprinting only the observable state (VIEW), action properties
+    depth = 4 if ctx.quick else 5
+    cfg = ("CONSTANTS\n%s  Bufs = {\"b1\"}\n  MaxSteps = %d\n  Emit = FALSE\nSPECIFICATION SysSpec\nVIEW View\n"
+           "INVARIANTS FreshIndependent\nPROPERTIES AppendOnly FrameVars FrameBufs FrameOther\nCHECK_DEADLOCK FALSE\n" % (base, depth))
+    out, st = vlib.tlc(ctx.work, "MCSystem", cfg, workers=vlib.NCPU, timeout=1500, heap="8g")
+    if "is violated" in out or "Error:" in out or st["rc"] != 0:
+        raise Broken("design check MCSystem failed:\n" + "\n".join(l[:300] for l in out.splitlines() if "CASE" not in l)[-3000:])
+    ctx.add_mc(st)
+    cat = None
+    for line in out.splitlines():
+        m = CAT_RE.match(line)
+        if m:
+            cat = json.loads(json.loads(m.group(1)))
+    if cat is None:
+        raise Broken("no catalogue emitted by MCSystem")
+    catp = os.path.join(ctx.work, "cat.json")
+    json.dump(cat, open(catp, "w"))
+    os.environ["PVH_CAT"] = catp
+    # 2. all histories of length 3 on one buffer
+    cases, st2 = fam_codec.mc_generic(ctx.work, "MCSystem", base + "  Bufs = {\"b1\"}\n  MaxSteps = 3\n  Emit = TRUE\n", "FreshIndependent",
+                                      spec="SysSpec")
+    ctx.add_mc(st2)
+    # 3. longer random histories on two buffers, drawn by the harness over the same catalogue (code -> spec direction)
+    nsim = 4000 if ctx.quick else 150000
+    log("MCSystem: design %d states; %d exhaustive histories; %d random histories" % (st["distinct"], len(cases), nsim))
+    sim = []
+    # 4. capacity sweep: every spare capacity 0..460 x prefix {0, 3 bytes} for every item, then a second marshal into the grown buffer
+    for i in range(1, len(cat) + 1):
+        for pre in ([], [1, 2, 3]):
+            for spare in (range(0, 461) if i >= 12 or not ctx.quick else list(range(0, 40)) + [63, 64, 65, 127, 128, 129]):
+                sim.append({"ev": "hist", "steps": [
+                    {"act": "newbuf", "b": "b1", "pre": pre, "spare": spare, "i": 0, "k": 0, "conv": ""},
+                    {"act": "marshal", "b": "b1", "pre": [], "spare": 0, "i": i, "k": 2, "conv": "ptr"},
+                    {"act": "marshal", "b": "b1", "pre": [], "spare": 0, "i": 1 + (i % len(cat)), "k": 2, "conv": "val"}]})
+    allc = cases + sim
+    for c in allc:
+        c["cfg"] = fam_codec.CFGS["default"]
+    p1 = os.path.join(ctx.work, "hist_cases.ndjson")
+    fam_codec.write_cases(allc, p1, 0)
+    p2 = fam_codec.gen_random(ctx.pvh, ctx.work, nsim, ctx.seed, cfg="default", kind="hist", idbase=1000000, tag="rhist")
+    ctx.case_files = [p1, p2]
+    t1 = fam_codec.run_cases(ctx.pvh, p1, ctx.work, "hist")
+    t2 = fam_codec.run_cases(ctx.pvh, p2, ctx.work, "rhist")
+    trace = os.path.join(ctx.work, "all_trace.ndjson")
+    with open(trace, "w") as f:
+        f.write(open(t1).read())
+        f.write(open(t2).read())
+    ctx.judge_kw = dict(extra_consts='  CatFile = "%s"\n  Cat <- CatLit\n  Bufs = {"b1", "b2"}\n  MaxSteps = 100\n  GenIdx <- AllIdx\n' % catp,
+                        defs="CatLit == " + vlib.tla_literal(cat))
+    verdicts, jst = vlib.judge(ctx.work, "TraceSystem", trace, ctx.env, ctx.open, tag="main", **ctx.judge_kw)
+    rule = ("histories of API calls (newbuf with prefix {0,1,3 bytes} x spare capacity {0,1,64}; marshal by pointer / by value; marshal into data[:0]; "
+            "unmarshal; scribble; fresh variable) over a catalogue of %d (type, value) items incl. values that encode to nothing and pointer-shaped "
+            "by-value shapes: all %d histories of length 3 on one buffer + %d random histories of 6..12 calls on two buffers. One TLC state per call; "
+            "distinct = distinct histories; non-trivial = contains a marshal of a value with a non-empty encoding" % (len(cat), len(cases), nsim))
+    return finish(ctx, "TraceSystem", verdicts, [trace], jst, rule, CODEC_ASSUME + [
+        "aliasing is detected through its observable consequence: the source value is scrambled in place after every Marshal, buffers are overwritten by "
+        "scribble steps, and every live buffer and variable is re-read after every call"])
+
+
+def plan_C06(ctx):
+    return system_family(ctx)
+
+
+def plan_C11(ctx):
+    return system_family(ctx)
+
+
 def plan_C03(ctx):
     return decode_family(ctx, ["evolve"], 5000, 100000)
 
@@ -286,7 +360,8 @@ def plan_C12(ctx):
     return codec_family(ctx, 6000, 200000, mc_cfgs_quick=("both", "pa"), rnd_cfg="mix")
 
 
-PLANS = {"C03": plan_C03, "C10": plan_C10, "C18": plan_C18, "C12": plan_C12, "C01": plan_C01, "C02": plan_C02, "C05": plan_C05, "C09": plan_C09, "C14": plan_C14}
+PLANS = {"C06": plan_C06, "C11": plan_C11, "C03": plan_C03, "C10": plan_C10, "C18": plan_C18, "C12": plan_C12, "C01": plan_C01, "C02": plan_C02, "C05": plan_C05, "C09": plan_C09, "C14": plan_C14}
 MODULES = {k: "TraceCodec" for k in PLANS}
 MODULES["C18"] = "TracePrim"
 MODULES["C03"] = MODULES["C10"] = "TraceDecode"
+MODULES["C06"] = MODULES["C11"] = "TraceSystem"
